@@ -192,10 +192,10 @@ func c24Payload(rng *rand.Rand, n int) ([]byte, string) {
 	}
 }
 
-func c24GenScript(rng *rand.Rand, big bool) *c24Script {
+func c24GenScript(rng *rand.Rand, big int) *c24Script {
 	s := &c24Script{readSeed: rng.Int63()}
-	if big {
-		p, kind := c24Payload(rng, 8<<20)
+	if big > 0 {
+		p, kind := c24Payload(rng, big)
 		s.writes, s.desc, s.total = [][]byte{p}, []string{fmt.Sprintf("%s:%d", kind, len(p))}, len(p)
 		return s
 	}
@@ -211,7 +211,7 @@ func c24GenScript(rng *rand.Rand, big bool) *c24Script {
 		nw = 2 + rng.Intn(12)
 	}
 	tiny := nw >= 40
-	for i := 0; i < nw && s.total < 700<<10; i++ {
+	for i := 0; i < nw && s.total < 300<<10; i++ {
 		var n int
 		switch {
 		case tiny:
@@ -219,7 +219,7 @@ func c24GenScript(rng *rand.Rand, big bool) *c24Script {
 		case rng.Intn(3) == 0:
 			n = c24EdgeSizes[rng.Intn(len(c24EdgeSizes))]
 		case rng.Intn(3) == 0:
-			n = rng.Intn(200000)
+			n = rng.Intn(140000)
 		default:
 			n = rng.Intn(3000)
 		}
@@ -278,7 +278,7 @@ func c24Codecs(t *testing.T, rng *rand.Rand) []*c24Codec {
 	if err != nil {
 		t.Fatalf("c24: zstd wrapper: %v", err)
 	}
-	bl := []int{0, 1, 4, 6, 9}
+	bl := []int{0, 1, 2, 4, 5, 6, 6, 9}
 	b1, b2 := bl[rng.Intn(len(bl))], bl[rng.Intn(len(bl))]
 	return []*c24Codec{
 		{name: "none"},
@@ -310,6 +310,7 @@ type c24Case struct {
 	ab, ba *c24Dir
 	closeK int // >=0: A closes after closeK writes (A->B only carries data)
 	failed atomic.Bool
+	abort  atomic.Bool // the harness is tearing the connection down: nothing seen from now on counts
 }
 
 func (c *c24Case) detail(extra map[string]any) map[string]any {
@@ -323,6 +324,9 @@ func (c *c24Case) detail(extra map[string]any) map[string]any {
 }
 
 func (c *c24Case) violation(kind string, extra map[string]any) {
+	if c.abort.Load() {
+		return
+	}
 	c.failed.Store(true)
 	c.r.Violation("compress-stream:"+kind+":"+c.codec.name, c.detail(extra))
 }
@@ -455,7 +459,9 @@ func (c *c24Case) run(seed int64) bool {
 		go func() { defer close(done); c.drain(b, c.ab, 0, true) }()
 		select {
 		case <-done:
-		case <-time.After(120 * time.Second):
+		case <-time.After(300 * time.Second):
+			c.abort.Store(true)
+			rawB.Close()
 			return false
 		}
 		wrote := 0
@@ -485,7 +491,7 @@ func (c *c24Case) run(seed int64) bool {
 	starved := func(d *c24Dir) bool {
 		return d.writerDone.Load() && !d.readerDone.Load() && d.half.starved()
 	}
-	ok := verifrt.WaitUntil(180*time.Second, func() bool {
+	ok := verifrt.WaitUntil(400*time.Second, func() bool {
 		select {
 		case <-all:
 			return true
@@ -501,6 +507,7 @@ func (c *c24Case) run(seed int64) bool {
 	}
 	if !finished {
 		if !ok {
+			c.abort.Store(true)
 			rawA.Close()
 			rawB.Close()
 			<-all
@@ -512,7 +519,7 @@ func (c *c24Case) run(seed int64) bool {
 			}
 		}
 		// unblock the readers; they report nothing further
-		c.failed.Store(true)
+		c.abort.Store(true)
 		rawA.Close()
 		rawB.Close()
 		<-all
@@ -529,7 +536,8 @@ func (c *c24Case) run(seed int64) bool {
 	go func() { defer close(done); c.drain(b, c.ab, len(c.ab.expect), false) }()
 	select {
 	case <-done:
-	case <-time.After(120 * time.Second):
+	case <-time.After(300 * time.Second):
+		c.abort.Store(true)
 		rawB.Close()
 		return false
 	}
@@ -543,7 +551,7 @@ func (c *c24Case) run(seed int64) bool {
 func TestVerif_C24(t *testing.T) {
 	r := verifrt.Start(t, "C24")
 	defer r.Finish()
-	r.Rule("case = one connection over an in-memory full-duplex transport (unbounded buffers, transport reads fragmented at random) whose two ends are wrapped by the package's wrapper for codec in {none, gzip, zstd, brotli} (random levels per batch, wrapper objects and their pools reused by all cases of the batch, 3 connections at a time); both ends write a generated script of writes (zeros/random/text/runs payloads; 0-byte, 1-byte, 2^k+-1 and up to 200 KB writes; one 8 MiB single write per codec and run) while the other end reads with random read sizes and compares every byte; then an orderly close must show only end-of-stream; in 1 of 6 cases one end closes after k writes and the other must read a clean prefix. non-trivial = at least two writes and at least one byte in some direction; distinct by codec, levels and scripts")
+	r.Rule("case = one connection over an in-memory full-duplex transport (unbounded buffers, transport reads fragmented at random) whose two ends are wrapped by the package's wrapper for codec in {none, gzip, zstd, brotli} (random levels per batch, wrapper objects and their pools reused by all cases of the batch, 3 connections at a time); both ends write a generated script of writes (zeros/random/text/runs payloads; 0-byte, 1-byte, 2^k+-1 and up to 140 KB writes; one 2 MiB (thorough: 8 MiB) single write per codec and run) while the other end reads with random read sizes and compares every byte; then an orderly close must show only end-of-stream; in 1 of 6 cases one end closes after k writes and the other must read a clean prefix. non-trivial = at least two writes and at least one byte in some direction; distinct by codec, levels and scripts")
 	r.Assume("a direction is reported as withheld only in the stable state: its writer returned from all Writes, the transport buffer is empty and the reader is blocked")
 
 	rng := r.Rand(24)
@@ -563,8 +571,12 @@ func TestVerif_C24(t *testing.T) {
 			codec = codecs[r.Batch]
 		}
 		c := &c24Case{r: r, codec: codec, id: fmt.Sprintf("b%d/%d", r.Batch, i), closeK: -1}
-		c.ab = &c24Dir{name: "a->b", script: c24GenScript(rng, big)}
-		c.ba = &c24Dir{name: "b->a", script: c24GenScript(rng, false)}
+		bigSize := 0
+		if big {
+			bigSize = r.Pick(2<<20, 8<<20)
+		}
+		c.ab = &c24Dir{name: "a->b", script: c24GenScript(rng, bigSize)}
+		c.ba = &c24Dir{name: "b->a", script: c24GenScript(rng, 0)}
 		if !big && rng.Intn(6) == 0 && len(c.ab.script.writes) > 0 {
 			c.closeK = rng.Intn(len(c.ab.script.writes) + 1)
 			c.ba.script = &c24Script{}
@@ -586,9 +598,13 @@ func TestVerif_C24(t *testing.T) {
 		go func() {
 			defer wg.Done()
 			for j := range ch {
+				t0 := time.Now()
 				if !j.c.run(j.seed) {
 					watchdog.Add(1)
 				}
+				ms := time.Since(t0).Milliseconds()
+				r.Max("max_connection_ms_"+j.c.codec.name, ms)
+				r.Count("total_connection_ms_"+j.c.codec.name, ms)
 				r.Count("bytes_compared", j.c.ab.got.Load()+j.c.ba.got.Load())
 				r.Count("connections_"+j.c.codec.name, 1)
 				r.Max("max_single_write_bytes", int64(c24MaxWrite(j.c)))
